@@ -44,3 +44,32 @@ def regenerate_step(atp: int, gtp: int, nadh: int, debt: int, max_atp: int, max_
     s.regenerate(amount, ET[et])
     w1 = s.atp + s.gtp + s.nadh - s._debt
     return (s.atp <= max(atp, max_atp) and s.gtp <= max_gtp and s.nadh <= max_nadh and 0 <= s._debt <= debt and w1 - w0 <= amount)
+
+
+def convert_step(atp: int, gtp: int, nadh: int, debt: int, max_atp: int, max_gtp: int, max_nadh: int, max_debt: int,
+                 amount: int) -> bool:
+    """
+    pre: 0 <= atp <= 64 and 0 <= gtp <= max_gtp <= 64 and 0 <= nadh <= max_nadh <= 64 and 0 <= debt <= 64
+    pre: 0 <= max_atp <= 64 and 0 <= max_debt <= 64 and 0 <= amount <= 128
+    post: _ == True
+    """
+    s = _store(atp, gtp, nadh, debt, max_atp, max_gtp, max_nadh, max_debt)
+    w0 = s.atp + s.gtp + s.nadh - s._debt
+    got = s.convert_nadh_to_atp(amount)
+    w1 = s.atp + s.gtp + s.nadh - s._debt
+    return (w1 <= w0 and s.atp >= atp and s.atp <= max(atp, max_atp) and 0 <= s.nadh <= nadh and s._debt == debt and s.gtp == gtp
+            and got <= amount and (got == s.atp - atp if got > 0 else s.atp == atp))   # (a store above capacity reports a negative amount and moves nothing)
+
+
+def transfer_step(atp: int, debt: int, max_atp: int, max_debt: int, atp2: int, debt2: int, max_atp2: int, amount: int) -> bool:
+    """
+    pre: 0 <= atp <= 64 and 0 <= debt <= 64 and 0 <= max_atp <= 64 and 0 <= max_debt <= 64
+    pre: 0 <= atp2 <= 64 and 0 <= debt2 <= 64 and 0 <= max_atp2 <= 64 and 0 <= amount <= 128
+    post: _ == True
+    """
+    a = _store(atp, 0, 0, debt, max_atp, 0, 0, max_debt)
+    b = _store(atp2, 0, 0, debt2, max_atp2, 0, 0, max_debt)
+    w0 = (a.atp - a._debt) + (b.atp - b._debt)
+    ok = a.transfer_to(b, amount, EnergyType.ATP)
+    w1 = (a.atp - a._debt) + (b.atp - b._debt)
+    return w1 <= w0 and a.atp >= 0 and b.atp >= 0 and a._debt == debt and 0 <= b._debt <= debt2 and (ok or (a.atp == atp and b.atp == atp2))
